@@ -26,6 +26,7 @@ def tla_desc_to_py(d: dict) -> dict:
         funcs.append({"name": f["name"], "params": list(f["params"]), "outputs": list(f["outputs"]),
                       "defaults": {p: v for p, v in f["defaults"]}, "bound": {p: v for p, v in f["bound"]},
                       "mapspec": None, "internal_shape": list(f.get("internal", [])), "cache": bool(f.get("cache", False)),
+                      "renamed": list(f.get("renamed", [])),
                       "retnone": bool(f.get("retnone", False)), "outperm": bool(f.get("outperm", False)),
                       "outrenamed": bool(f.get("outrenamed", False))})
     return {"funcs": funcs}
